@@ -129,6 +129,9 @@ func c10Scenarios(seed int64) []c10Scen {
 	same := imgs.Make(16, 32, "noise", "agradient", seed)
 	add(c10Scen{name: "S9 two threads encode the same image object", workers: 1, quickP: 2, thorP: 3, calls: []func() []byte{encBytes(same, lossy(4)), encBytes(same, ll(4, 75))}})
 	add(c10Scen{name: "S10 lossless 64x64 gradient m6 q100 workers=3", workers: 3, quickP: 2, thorP: 3, calls: []func() []byte{encBytes(imgs.Make(64, 64, "gradient", "opaque", seed), ll(6, 100))}})
+	// S11: the quality >= 90 histogram refinement pass with many workers on a picture with large flat
+	// areas (empty histogram tiles fall on the workers' chunk boundaries)
+	add(c10Scen{name: "S11 lossless 320x320 gradient m6 q100 workers=10 (histogram remap over empty tiles)", workers: 10, quickP: 1, thorP: 2, calls: []func() []byte{encBytes(imgs.Make(320, 320, "gradient", "opaque", seed), ll(6, 100))}})
 	return out
 }
 
@@ -238,7 +241,7 @@ func c10Judge(s *c10Scen, ref []string, seqOK []map[string]bool, results [][]byt
 func init() {
 	fw.Register(&fw.Check{
 		ID: "C10", Level: "model_checking", Shards: shards16,
-		Rule:   "stateless exploration of the real code under a controlled scheduler that owns every sync/atomic/pool/channel/go operation (instrumenter rewrite R2): for each of 14 scenarios (row-pipelined lossy encoder with 1-, 2- and 3-macroblock-wide pictures, alpha, lossless encode/decode parallel sections, parallel frame decoding, concurrent public calls with and without pool sharing, two threads on one image) ALL schedules with at most D non-default scheduling decisions (quick: delay bound 2; thorough: preemption bound 2 with free switches at blocking points for the pipeline/channel/public-call scenarios, delay bound 3 elsewhere; per scenario in the evidence) are executed; oracle: bytes/pixels equal the non-preempted schedule (concurrent calls: each result equals what the same call returns when run alone with empty pools), no deadlock, lost wake-up, livelock or panic; plus a separate free-running -race pass of the same bodies",
+		Rule:   "stateless exploration of the real code under a controlled scheduler that owns every sync/atomic/pool/channel/go operation (instrumenter rewrite R2): for each of 15 scenarios (row-pipelined lossy encoder with 1-, 2- and 3-macroblock-wide pictures, alpha, lossless encode/decode parallel sections, parallel frame decoding, concurrent public calls with and without pool sharing, two threads on one image) ALL schedules with at most D non-default scheduling decisions (quick: delay bound 2; thorough: preemption bound 2 with free switches at blocking points for the pipeline/channel/public-call scenarios, delay bound 3 elsewhere; per scenario in the evidence) are executed; oracle: bytes/pixels equal the non-preempted schedule (concurrent calls: each result equals what the same call returns when run alone with empty pools), no deadlock, lost wake-up, livelock or panic; plus a separate free-running -race pass of the same bodies",
 		Assume: []string{"sequential consistency at synchronisation operations; plain data races are only sampled by the free-running -race pass", "a completed sync.Once is not a scheduling point", "worker vector fixed per scenario; pools most-recent (fresh for S8)"},
 		Run: func(e *fw.Env, r *fw.Result) {
 			if len(e.Args) > 0 && e.Args[0] == "racepass" {
